@@ -9,6 +9,7 @@ import (
 	_ "verif/mc/checks/c07"
 	_ "verif/mc/checks/c08"
 	_ "verif/mc/checks/c09"
+	_ "verif/mc/checks/c10"
 	_ "verif/mc/checks/c11"
 	_ "verif/mc/checks/c12"
 	_ "verif/mc/checks/fmt3"
